@@ -4,6 +4,44 @@ mod fuzz;
 mod pb;
 mod proto;
 
+/// Allocator wrapper that records the largest single allocation requested
+/// (observation only: "memory reserved in proportion to a declared length").
+pub mod track {
+    use std::alloc::{GlobalAlloc, Layout, System};
+    use std::sync::atomic::{AtomicUsize, Ordering};
+
+    pub struct Tracking;
+    static MAX_REQ: AtomicUsize = AtomicUsize::new(0);
+
+    unsafe impl GlobalAlloc for Tracking {
+        unsafe fn alloc(&self, l: Layout) -> *mut u8 {
+            MAX_REQ.fetch_max(l.size(), Ordering::Relaxed);
+            unsafe { System.alloc(l) }
+        }
+        unsafe fn alloc_zeroed(&self, l: Layout) -> *mut u8 {
+            MAX_REQ.fetch_max(l.size(), Ordering::Relaxed);
+            unsafe { System.alloc_zeroed(l) }
+        }
+        unsafe fn dealloc(&self, p: *mut u8, l: Layout) {
+            unsafe { System.dealloc(p, l) }
+        }
+        unsafe fn realloc(&self, p: *mut u8, l: Layout, new_size: usize) -> *mut u8 {
+            MAX_REQ.fetch_max(new_size, Ordering::Relaxed);
+            unsafe { System.realloc(p, l, new_size) }
+        }
+    }
+
+    pub fn reset() {
+        MAX_REQ.store(0, Ordering::Relaxed);
+    }
+    pub fn max_request() -> u64 {
+        MAX_REQ.load(Ordering::Relaxed) as u64
+    }
+}
+
+#[global_allocator]
+static ALLOC: track::Tracking = track::Tracking;
+
 fn main() {
     let cmd = std::env::args().nth(1).unwrap_or_default();
     match cmd.as_str() {
